@@ -182,8 +182,19 @@ class SimPool:
         self.op_id = op_id
         self.map_idx = 0
 
+    # the life-cycle surface of a multiprocess pool: after any of these, map() raises "Pool not running"
     def close(self):
         self.closed = True
+        if self.log is not None:
+            self.log.add("pool-close", "close")
+
+    def terminate(self):
+        self.closed = True
+        if self.log is not None:
+            self.log.add("pool-close", "terminate")
+
+    def join(self):
+        pass
 
     def _fault_for(self, kind, **match):
         for f in self.faults:
